@@ -330,8 +330,33 @@ class SrcGA:
         setattr(self.__dict__["_inner"], name, value)
 
 
+class _AwaitObj:
+    """an awaitable that is not a coroutine: what a class-based iterator may hand back from __anext__ / aclose"""
+
+    def __init__(self, coro):
+        self.coro = coro
+
+    def __await__(self):
+        return self.coro.__await__()
+
+
+class SrcAwaitObj(Src):
+    """__anext__ and aclose are plain methods returning awaitable objects instead of coroutine functions"""
+
+    def __anext__(self):
+        return _AwaitObj(Src.__anext__(self))
+
+    def aclose(self):
+        return _AwaitObj(Src.aclose(self))
+
+
+AWAITABLE_OBJECT_SOURCES = {"on": False}
+
+
 def src_class(acl, i, items, nsrc):
     """which flavour of class-based source: a function of the case only, so that replays are exact"""
+    if AWAITABLE_OBJECT_SOURCES["on"] and acl:
+        return SrcAwaitObj
     if not acl:
         return SrcNC
     return SrcGA if (len(items) + i + nsrc) % 4 == 3 else Src
